@@ -37,7 +37,7 @@ def enrich(v, observers, defn=None):
     return v
 
 
-def run(scn, stats, flags=None, observers=(), stop=None, count_exc=True):
+def run(scn, stats, flags=None, observers=(), stop=None, count_exc=True, post_poll=False):
     """Build and run a scenario.  Returns (defn, Run).  Engine exceptions are counted and end the run
     (they are violations of C15/C11, whose checks own them)."""
     defn, drv = build(scn, stats)
@@ -47,6 +47,11 @@ def run(scn, stats, flags=None, observers=(), stop=None, count_exc=True):
     r.truncated = None
     try:
         r.run(stop=stop)
+        if post_poll and r.d.status() in provider.TERMINAL:
+            # a provider may well poll once more after the workflow came to rest
+            r.step({"op": "poll"})
+            if r.d.inflight:
+                r.finish(stop)
     except Violation as v:
         raise enrich(v, observers)
     except provider.KnownTrigger as k:
